@@ -218,6 +218,18 @@ def gen_hd_calls(ctx, n_calls, nmax, start_id):
         fb = rng.choice(list(FAMILIES))
         A = FAMILIES[fa](rng, _ri(rng, 1, nmax))
         r = rng.random()
+        if i % 4 == 1:
+            # A in a single octree leaf (one point, or coincident points): the main loop has
+            # exactly one iteration
+            B = FAMILIES[fb](rng, _ri(rng, 1, nmax))
+            src = rng.choice(B)
+            off = rng.choice([[0, 0, 0], [1, 0, 0], [0, 7, 0], [300, -40, 5], [3, 4, 0]])
+            A = [[src[j] + off[j] for j in range(3)]] * rng.choice([1, 1, 2, 3])
+            A = [list(p) for p in A]
+            fa = 'single-leaf'
+            calls.append({'id': start_id + len(calls), 'fn': 'hd', 'family': fa + '/' + fb,
+                          'A': {'pts': A}, 'B': {'pts': B}, 'directed': True})
+            continue
         if r < 0.25:
             B = [[x + rng.choice([-1, 0, 0, 1]) for x in p] for p in A]
             rng.shuffle(B)
@@ -410,6 +422,59 @@ def fallout_points(c):
     return []
 
 
+def explained_by_fallout(c, r):
+    """True iff the float octree of this call loses stored points AND the whole output of the
+    call is what the searches return when exactly those points are invisible (k-NN: every row is
+    the brute-force answer over the remaining targets; Hausdorff: A's lost points are not
+    iterated, B's lost points are invisible except that they may still trigger the hi<=HD
+    shortcut, so the value lies between HD(A', B) and HD(A', B'))"""
+    lost = fallout_points(c)
+    if not lost or 'exc' in r:
+        return False
+    if c['fn'] == 'knn':
+        A = c['A']['pts']
+        B = A if c.get('B') is None else c['B']['pts']
+        lostB = {i for _, i in lost}
+        if len(r['idx']) != len(A):
+            return False
+        for qi, q in enumerate(A):
+            if knn_oracle(q, B, c['k'], c['bound2'], r['idx'][qi], r['vec'][qi], lost=lostB) is not None:
+                return False
+        return True
+    if c['fn'] == 'hd':
+        A, B = c['A']['pts'], c['B']['pts']
+        la = {i for s_, i in lost if s_ == 'A'}
+        lb = {i for s_, i in lost if s_ == 'B'}
+        A1 = [p for i, p in enumerate(A) if i not in la]
+        B1 = [p for i, p in enumerate(B) if i not in lb]
+
+        def dirhd(X, Y):
+            if not X:
+                return 0
+            if not Y:
+                return None
+            return max([0] + [min(d2(a, b) for b in Y) for a in X])
+
+        def rng(X, Xfull, Y, Yfull):
+            return dirhd(X, Yfull), dirhd(X, Y)
+        if c['directed']:
+            lo, hi = rng(A1, A, B1, B)
+        else:
+            lo1, hi1 = rng(A1, A, B1, B)
+            lo2, hi2 = rng(B1, B, A1, A)
+            lo = max(lo1, lo2)
+            hi = None if (hi1 is None or hi2 is None) else max(hi1, hi2)
+        x = r['hd']
+        if x == 'inf':
+            return hi is None
+        if not isinstance(x, list):
+            return False
+        f = Fraction(x[0], x[1]) ** 2
+        tol = Fraction(1, 2 ** 50)
+        return f >= lo * (1 - tol) and (hi is None or f <= hi * (1 + tol))
+    return False
+
+
 # ----------------------------------------------------------------- impl runner
 def run_impl(ctx, calls, tag, timeout=1500):
     spec_path = ctx.scratch / f'impl_spec_{tag}.json'
@@ -513,9 +578,10 @@ def vec_int(v):
     return 'bad'
 
 
-def knn_oracle(q, B, k, b2, idx, vec):
-    """None if the row satisfies the property, else a short reason"""
-    ds = sorted(d2(q, p) for p in B if b2 is None or d2(q, p) <= b2)
+def knn_oracle(q, B, k, b2, idx, vec, lost=()):
+    """None if the row satisfies the property, else a short reason (lost: target indices to be
+    treated as absent -- used only to recognise the known octree defect)"""
+    ds = sorted(d2(q, p) for i, p in enumerate(B) if i not in lost and (b2 is None or d2(q, p) <= b2))
     want = (ds + [None] * k)[:k]
     if len(idx) != k or len(vec) != k:
         return 'shape'
@@ -530,7 +596,7 @@ def knn_oracle(q, B, k, b2, idx, vec):
                 return 'padding-vector'
             got.append(None)
             continue
-        if not (0 <= i < len(B)):
+        if not (0 <= i < len(B)) or i in lost:
             return 'index-range'
         if i in seen:
             return 'duplicate-index'
@@ -867,13 +933,13 @@ def hd_fails(c, r):
     return not dist_close(r['hd'], hd_oracle(c['A']['pts'], c['B']['pts'], c['directed']))
 
 
-def report(ctx, fails, do_shrink=True):
+def report(ctx, fails, res, do_shrink=True):
     seen = set()
     n = 0
     for c, qi, reason, src in fails:
         fam = c['family']
         lost = fallout_points(c)
-        if lost and c['fn'] in ('knn', 'hd') and src != 'impl':
+        if lost and c['fn'] in ('knn', 'hd') and src != 'impl' and explained_by_fallout(c, res[c['id']]):
             # the float octree construction drops a stored point of this very input
             sig = {'fn': c['fn'], 'cause': 'octree-fallout'}
             ctx.count('failures:octree-fallout')
@@ -954,7 +1020,7 @@ def main(ctx):
         ctx.notes['build_log_tail'] = log[-1500:]
     model_ok, _, _ = lib.coq_make(['C16/Model.vo'])
 
-    n_knn, n_hd, n_hop, nmax = (26, 8, 40, 10) if quick else (420, 90, 400, 14)
+    n_knn, n_hd, n_hop, nmax = (30, 16, 40, 10) if quick else (420, 100, 400, 14)
     calls = []
     # corpus first
     corpus = sorted((lib.VERIF / 'corpus' / PID).glob('*.json')) if (lib.VERIF / 'corpus' / PID).exists() else []
@@ -985,7 +1051,7 @@ def main(ctx):
     ctx.corr['cases'] = ctx.evaluations
     ctx.corr['disagreements'] = len(fails)
     ctx.notes['search_evaluations'] = ctx.evaluations
-    n_bad = report(ctx, fails)
+    n_bad = report(ctx, fails, res)
 
     if not proof_ok and n_bad == 0:
         bad = [o['name'] for o in ctx.obligations if not o['discharged']]
